@@ -118,8 +118,9 @@ def spiral_square_pattern(x_motor, y_motor, x_center, y_center, x_range, y_range
         y_offset = 0
 
     num_ring = max(x_num, y_num)
-    x_delta = x_range / (x_num - 1)
-    y_delta = y_range / (y_num - 1)
+    # a single column (row) has no spacing: it sits at the centre
+    x_delta = x_range / (x_num - 1) if x_num > 1 else 0.0
+    y_delta = y_range / (y_num - 1) if y_num > 1 else 0.0
 
     # include the first point, as it is the first 'ring' to include.
     x_points.append(x_center - x_delta * x_offset)
